@@ -1,6 +1,8 @@
 package main
 
 import (
+	"github.com/go-i2p/common/data"
+	"bytes"
 	"strings"
 	"fmt"
 	"github.com/go-i2p/common/key_certificate"
@@ -176,6 +178,37 @@ func runC04(c *Ctx) {
 	c04KeyConstructors(c)
 	c04EveryByteFunction(c)
 	c04SmallCertificates(c)
+	c04MappingValues(c)
+}
+
+// ReadMappingValues takes the declared length as an Integer of the caller's making: every width,
+// the ends of the signed and unsigned ranges, lengths around the data actually present
+func c04MappingValues(c *Ctx) {
+	r := c.R
+	var lens [][]byte
+	for _, w := range []int{1, 2, 3, 4, 7, 8} {
+		for _, v := range []uint64{0, 1, 2, 6, 7, 255, 256, 65535, 65536, 1<<31 - 1, 1 << 31, 1<<32 - 1, 1<<63 - 1, 1 << 63, 1<<63 + 5, 1<<64 - 16, 1<<64 - 4, 1<<64 - 1} {
+			lens = append(lens, beBytes(v, 8)[8-w:])
+		}
+	}
+	lens = append(lens, nil, []byte{}, make([]byte, 9), bytes.Repeat([]byte{0xff}, 9))
+	for i := 0; i < c.N(6, 60); i++ {
+		body := encodeMappingPairs(genKVs(r, 4))
+		for _, d := range [][]byte{body, nil, {}, {0}, r.Bytes(r.Intn(40))} {
+			for _, l := range append(lens, beBytes(uint64(len(d)), 2), beBytes(uint64(len(d)+1), 2)) {
+				var pan string
+				func() {
+					defer func() {
+						if x := recover(); x != nil {
+							pan = fmt.Sprintf("panic: %v", x)
+						}
+					}()
+					data.ReadMappingValues(cp(d), data.Integer(cp(l)))
+				}()
+				c.Check("parser_returns_normally", pan == "", "ReadMappingValues", [][]byte{d, l}, "", pan)
+			}
+		}
+	}
 }
 
 // callValueFuncs: every exported package-level function that takes a library value (or a pointer to
